@@ -266,7 +266,11 @@ func evalC10(e *Eval) {
 				if !m.Const.Exported() {
 					continue
 				}
-				v, exact := constant.Int64Val(m.Const.Val())
+				var v int64
+				exact := false
+				if cv := m.Const.Val(); cv.Kind() == constant.Int { // Int64Val panics on the other kinds
+					v, exact = constant.Int64Val(cv)
+				}
 				vals = append(vals, m.Const.Name()+"="+m.Const.Val().ExactString())
 				if !exact || v != k {
 					okSeq = false
